@@ -210,13 +210,19 @@ impl<'b, C> Decode<'b, C> for Nothing {
 pub struct Ticket {
     pub base: u64,
     pub taken: std::cell::Cell<u64>,
+    /// bytes of padding after the number (0 = the bare number): makes the encoding as long as a run needs it to be
+    pub pad: usize,
 }
 
 impl<C> Encode<C> for Ticket {
     fn encode<W: Write>(&self, e: &mut Encoder<W>, _: &mut C) -> Result<(), encode::Error<W::Error>> {
         let k = self.taken.get();
         self.taken.set(k + 1);
-        e.u64(self.base + k)?;
+        if self.pad == 0 {
+            e.u64(self.base + k)?;
+        } else {
+            e.array(2)?.u64(self.base + k)?.bytes(&vec![0x7e; self.pad])?;
+        }
         Ok(())
     }
 }
@@ -808,7 +814,7 @@ pub fn with_value<V: EncVisitor>(spec: &ValSpec, vis: V) -> V::Out {
         Ty::Ticket => {
             // bases right below a head-width boundary, so that "the next number" is one byte longer
             let base = *r.pick(&[23u64, 23, 255, 65_535, 0xffff_ffff, 5]) + if n % 4 == 3 { 1 } else { 0 };
-            vis.visit(&Ticket { base, taken: std::cell::Cell::new(0) })
+            vis.visit(&Ticket { base, taken: std::cell::Cell::new(0), pad: if n >= 8 { n } else { 0 } })
         }
     }
 }
